@@ -1,29 +1,37 @@
-(* C02 - what sc_notify_payload does with an out_payload array that is NOT EMPTY on entry (reused by the caller), for the two
-   places of the unchanged code where the array is not emptied first (recorded findings with keys reused-out-payload:...).  These small
-   models are tied to the code by the replayed harness cases only; the program theorems of Properties_C02.v describe calls
-   whose output arrays are empty on entry (the guard below). *)
+(* C02 - out_payload arrays that are NOT EMPTY on entry (reused by the caller) in sc_notify_payload.
+   Two places of the code do not empty the array they are handed: sc_notify_payload_nbx (unsorted: out_payload itself is the
+   growing receive buffer) and sc_notify_reset_output (n-ary: the array is resized only if the final record array holds a
+   record).  Since /repo 89355d2 the dispatcher sc_notify_payload resets out_payload before it calls the algorithm
+   (`dispatch`), as sc_notify_payloadv always did; `dispatch_old` is the dispatcher before that repair.  These small models are
+   tied to the code by the harness cases that reuse the caller's output arrays (checks/notify_common.reuse_cases). *)
 From Coq Require Import ZArith List.
 Import ListNotations.
 Local Open Scope Z_scope.
 
 Definition bytes := list Z.
-(* sc_notify_payload_nbx, unsorted, out_payload given: recv_buf = out_payload, one item pushed per message; afterwards
+Definition outcome := (list Z * list bytes)%type.             (* senders, out_payload *)
+
+(* sc_notify_payload_nbx, unsorted, out_payload given: one item pushed per message behind what the array holds; afterwards
    num_senders = recv_buf->elem_count and senders is resized to it (entries behind the pushed ranks are uninitialised: junk) *)
-Definition nbx_unsorted_out (junk : Z) (stale : list bytes) (got : list (Z * bytes)) : list Z * list bytes :=
-  (map fst got ++ repeat junk (length stale), stale ++ map snd got).
+Definition nbx_unsorted_out (junk : Z) (got : list (Z * bytes)) (held : list bytes) : outcome :=
+  (map fst got ++ repeat junk (length held), held ++ map snd got).
 (* sc_notify_reset_output: the payload array is resized only when the final record array holds a record *)
-Definition nary_out (stale : list bytes) (found : list (Z * bytes)) : list Z * list bytes :=
-  match found with [] => ([], stale) | _ => (map fst found, map snd found) end.
+Definition nary_out (found : list (Z * bytes)) (held : list bytes) : outcome :=
+  match found with [] => ([], held) | _ => (map fst found, map snd found) end.
 
-(* guard: with an empty array on entry both return exactly what was received *)
-Theorem reused_guard junk got : nbx_unsorted_out junk [] got = (map fst got, map snd got) /\ nary_out [] got = (map fst got, map snd got).
-Proof. unfold nbx_unsorted_out, nary_out. cbn [length repeat app]. rewrite app_nil_r. split; [reflexivity|]. destruct got; reflexivity. Qed.
+(* the dispatcher: since 89355d2 `sc_array_reset (out_payload)` precedes the algorithm; before, the array went in as it was *)
+Definition dispatch (alg : list bytes -> outcome) (initial : list bytes) : outcome := alg [].
+Definition dispatch_old (alg : list bytes -> outcome) (initial : list bytes) : outcome := alg initial.
 
-(* refuted without the guard: the item found at the position of the first sender is not the one it sent / items without sender *)
-Theorem nbx_reused_out_payload_refuted : exists junk stale got,
-  stale <> [] /\ nth 0 (snd (nbx_unsorted_out junk stale got)) [] <> nth 0 (map snd got) [] /\
-  length (fst (nbx_unsorted_out junk stale got)) <> length got.
-Proof. exists (-1), [[7]], [(3, [9])]. repeat split; vm_compute; discriminate. Qed.
+(* the result of a call does not depend on what out_payload held on entry, and is what was received *)
+Theorem out_payload_initial_irrelevant junk got initial :
+  dispatch (nbx_unsorted_out junk got) initial = (map fst got, map snd got) /\
+  dispatch (nary_out got) initial = (map fst got, map snd got).
+Proof. unfold dispatch, nbx_unsorted_out, nary_out. cbn [length repeat app]. rewrite app_nil_r. split; [reflexivity|]. destruct got; reflexivity. Qed.
 
-Theorem nary_reused_out_payload_refuted : exists stale, stale <> [] /\ snd (nary_out stale []) <> [].
-Proof. exists [[7]]. split; vm_compute; discriminate. Qed.
+(* the dispatcher before the repair: refuted (the witnesses are what the replayed reuse cases showed on the old tree) *)
+Theorem dispatch_old_refuted :
+  (exists junk initial got, nth 0 (snd (dispatch_old (nbx_unsorted_out junk got) initial)) [] <> nth 0 (map snd got) [] /\
+                            length (fst (dispatch_old (nbx_unsorted_out junk got) initial)) <> length got) /\
+  (exists initial, snd (dispatch_old (nary_out []) initial) <> []).
+Proof. split; [exists (-1), [[7]], [(3, [9])]; split; vm_compute; discriminate|exists [[7]]; vm_compute; discriminate]. Qed.
